@@ -6,6 +6,7 @@ import (
 	"go.flow.arcalot.io/engine/internal/step"
 	"go.flow.arcalot.io/pluginsdk/schema"
 	"regexp"
+	"sync"
 )
 
 // Workflow is the primary data structure describing workflows.
@@ -33,8 +34,20 @@ type Workflow struct {
 	Output any `json:"output"`
 }
 
+var workflowSchema *schema.TypedScopeSchema[*Workflow]
+var workflowSchemaOnce sync.Once
+
 // GetSchema returns the entire workflow schema.
+// The schema is built once: building it links schema objects shared by the whole process, which must not
+// happen while another goroutine is using them.
 func GetSchema() *schema.TypedScopeSchema[*Workflow] {
+	workflowSchemaOnce.Do(func() {
+		workflowSchema = buildSchema()
+	})
+	return workflowSchema
+}
+
+func buildSchema() *schema.TypedScopeSchema[*Workflow] {
 	return schema.NewTypedScopeSchema[*Workflow](
 		schema.NewStructMappedObjectSchema[*Workflow](
 			"Workflow",
